@@ -73,8 +73,8 @@ def parseMsg (T : Nat) (w : String) : Option Msg :=
   | [t, lv, md, fn, fl, ln, kd, len, seed] => do
     let t ← t.toNat?; let lv ← intOfString? lv; let ln ← intOfString? ln
     let len ← len.toNat?; let seed ← seed.toNat?
-    if t ≥ T || len > 200000 || seed > 1000000 || ln.natAbs > 1000000000 || lv.natAbs > 1000 then none else
-    let kd ← (match kd.toList with | [c] => if c == 'p' || c == 's' || c == 'n' || c == 'f' then some c else none | _ => none)
+    let kd ← (match kd.toList with | [c] => if "psnfwoe".toList.contains c then some c else none | _ => none)
+    if t ≥ T || len > (if kd == 'w' then 2147483647 else 200000) || seed > 1000000 || ln.natAbs > 1000000000 || lv.natAbs > 1000 then none else
     let md ← (if md == "-" then some none else if nameOk md then some (some md) else none)
     let fn ← (if fn == "-" then some none else if nameOk fn then some (some fn) else none)
     let fl ← (if fl == "-" then some none else if pathOk fl then some (some fl) else none)
@@ -83,11 +83,21 @@ def parseMsg (T : Nat) (w : String) : Option Msg :=
 
 /-- the record LogPrintfFunc dispatches for a message (model parts a, clamp, Basename) -/
 def expectRec (max : Nat) (ttag : Nat) (m : Msg) : ERec :=
-  let body := genText m.len m.seed
+  let body := if m.kind == 'w' || m.kind == 'o' || m.kind == 'e' then [] else genText m.len m.seed
   let (text, tr, tags) : Bytes × Bool × List String :=
     match m.kind with
     | 'n' => ([], false, ["fmt-null"])
     | 's' => let r := putsText body max; (r.1, r.2, [if r.2 then "puts-trunc" else "puts-fit"])
+    | 'w' | 'o' | 'e' =>
+      -- the width family goes through the width-carrying loop `formatW` (uint32 buff_size, int result of vsnprintf)
+      let L := if m.kind == 'w' then Nat.max m.len 1 else if m.kind == 'o' then 2147483647 + Nat.max m.len 1 else 7
+      let fmt := asciiBytes (if m.kind == 'o' then "%*d%*d" else "ab%lcde")
+      match formatW L (m.kind == 'e') max with
+      | some (.done tl tr _, _) =>
+        ((if tl == L then List.replicate (L - 1) 32 ++ [55] else List.replicate tl 32), tr,
+         ["width-fmt"] ++ (if L ≥ 65535 && L ≤ 65537 then ["edge-2^16"] else []) ++ (if L ≥ 2147483646 then ["edge-2^31"] else []))
+      | some (.fallback, _) => let r := putsText fmt max; (r.1, r.2, ["vsnprintf-failed"])
+      | _ => ([], false, ["fmt-diverged"])
     | k =>
       let msg := if k == 'f' then asciiBytes (toString m.seed) ++ [124] ++ body else body
       match formatText msg max with
@@ -119,6 +129,8 @@ structure SinkSt where
   dirty : Bool := false             -- records dispatched since creation / the last `off`
   fd1 : Bool := false               -- writes to fd 1 (at most one such sink per case)
   pending : Array PRec := #[]       -- file/stream sink: everything dispatched to it so far
+  aout : Bool := false              -- AsyncStdoutSink: write(2) on fd 1 from the back end
+  fl : FileLen := {}                -- file sink: the model state (lengths) replayed from the recorded system calls
 
 instance : Inhabited SinkSt := ⟨{ kind := .mem }⟩
 
@@ -129,10 +141,124 @@ structure TA where
   tl : List String := []
   tags : List String := []
   err : Option String := none
+  merr : Option String := none      -- model-internal divergence (reported as `reject M:` when nothing property-level fails)
   nops : Nat := 0
   nrec : Nat := 0
 
 def TA.fail (a : TA) (msg : String) : TA := { a with err := some s!"op#{a.nops} {msg}" }
+def TA.mfail (a : TA) (msg : String) : TA := if a.merr.isSome then a else { a with merr := some s!"op#{a.nops} {msg}" }
+
+/-! ### replay of the recorded system calls (K lines) through the model -/
+
+inductive KEv where
+  | mk (ok : Bool)                      -- mkdir of the sink directory
+  | op (ok : Bool)                      -- open(O_CREAT) of a new log file
+  | wr (asked : Nat) (ans : WAns) (hardName : String)
+  | cl
+  | sy
+  | offBegin
+  deriving Inhabited
+
+def parseKEv (aout : Bool) (ws : List String) : Option KEv :=
+  match ws with
+  | ["d", r] => some (.mk (r == "ok"))
+  | ["o", r] => some (.op (r == "ok"))
+  | ["c", _] => some .cl
+  | ["y", _] => some .sy
+  | ["off-begin"] => some .offBegin
+  | ["w", a, r] => do
+    let a ← a.toNat?
+    if r.startsWith "-" then
+      let nm := (r.drop 1).toString
+      -- the file sink retries EINTR only; the stdout sink also waits out EAGAIN
+      if nm == "EINTR" || (aout && nm == "EAGAIN") then some (.wr a .eintr nm) else some (.wr a .err nm)
+    else (r.toNat?).map fun k => .wr a (.acc k) ""
+  | _ => none
+
+/-- consume the write calls of ONE write loop over `rem` bytes: every call must ask for exactly what is
+left; returns (answers, remaining events) or an error -/
+def takeLoop : Nat → Nat → List KEv → List WAns → Except String (List WAns × List KEv)
+  | 0, _, evs, acc => .ok (acc.reverse, evs)
+  | fuel + 1, rem, evs, acc =>
+    if rem == 0 then .ok (acc.reverse, evs) else
+    match evs with
+    | .wr a ans _ :: rest =>
+      if a != rem then .error s!"write asked for {a} bytes, the model's loop has {rem} left" else
+      match ans with
+      | .acc k => if k == 0 then .ok ((ans :: acc).reverse, rest) else takeLoop fuel (rem - k) rest (ans :: acc)
+      | .eintr => takeLoop fuel rem rest (ans :: acc)
+      | .err => .ok ((ans :: acc).reverse, rest)
+    | _ => .error s!"the write loop stopped with {rem} bytes left although the kernel refused nothing"
+
+structure Replay where
+  fl : FileLen
+  refusedAfterOff : Bool := false       -- some system call was refused after disable() began
+  refused : Bool := false               -- some system call was refused at all
+  sawOff : Bool := false
+
+/-- walk the events of a file sink, one `flush()` at a time, through `flushKLen` -/
+def replayFile (max : Nat) : Nat → Replay → List KEv → Except String Replay
+  | 0, r, _ => .ok r
+  | _, r, [] => .ok r
+  | fuel + 1, r, ev :: evs =>
+    let note (r : Replay) : Replay := { r with refused := true, refusedAfterOff := r.refusedAfterOff || r.sawOff }
+    match ev with
+    | .offBegin => replayFile max fuel { r with sawOff := true } evs
+    | .sy => replayFile max fuel r evs
+    | .cl => .error "close() of the log file where the model's flush() keeps it open (unwritten tail or below the limit)"
+    | .mk ok =>
+      if r.fl.cur.isSome then .error "mkdir while a log file is open" else
+      if ok then replayFile max fuel r evs
+      else replayFile max fuel (note { r with fl := flushKLen max r.fl { dirOk := false } }) evs
+    | .op ok =>
+      if r.fl.cur.isSome then .error "open() of a new log file while the model still has one open" else
+      if !ok then replayFile max fuel (note { r with fl := flushKLen max r.fl { openOk := false } }) evs else
+      -- the flush goes on with its write loop on the new file
+      let evs := evs.dropWhile (fun e => match e with | .sy => true | _ => false)
+      match evs with
+      | .wr a _ _ :: _ =>
+        if a < r.fl.cache then .error s!"first write of a flush asks for {a} bytes, fewer than the retained tail {r.fl.cache}" else
+        match takeLoop (evs.length + 1) a evs [] with
+        | .error e => .error e
+        | .ok (answers, rest) =>
+          let fl' := flushKLen max { r.fl with cache := a } { writes := answers }
+          let r := if answers.any (fun x => !x.soft) then note { r with fl := fl' } else { r with fl := fl' }
+          if fl'.cur.isNone then
+            match rest with
+            | .cl :: rest' => replayFile max fuel r rest'
+            | _ => .error "the model's flush() closes the file here (limit reached, batch complete), the implementation did not"
+          else replayFile max fuel r rest
+      | _ => .error "open() of a new log file not followed by a write"
+    | .wr a _ _ =>
+      if r.fl.cur.isNone then .error "write() although the model has no log file open" else
+      if a < r.fl.cache then .error s!"first write of a flush asks for {a} bytes, fewer than the retained tail {r.fl.cache}" else
+      match takeLoop (evs.length + 2) a (ev :: evs) [] with
+      | .error e => .error e
+      | .ok (answers, rest) =>
+        let fl' := flushKLen max { r.fl with cache := a } { writes := answers }
+        let r' := if answers.any (fun x => !x.soft) then note { r with fl := fl' } else { r with fl := fl' }
+        if fl'.cur.isNone then
+          match rest with
+          | .cl :: rest' => replayFile max fuel r' rest'
+          | _ => .error "the model's flush() closes the file here (limit reached, batch complete), the implementation did not"
+        else replayFile max fuel r' rest
+
+/-- the async stdout sink: every flush is one write loop over a fresh batch (the cache is always cleared) -/
+def replayStdout : Nat → Replay → List KEv → Except String Replay
+  | 0, r, _ => .ok r
+  | _, r, [] => .ok r
+  | fuel + 1, r, ev :: evs =>
+    match ev with
+    | .offBegin => replayStdout fuel { r with sawOff := true } evs
+    | .wr a _ _ =>
+      match takeLoop (evs.length + 2) a (ev :: evs) [] with
+      | .error e => .error e
+      | .ok (answers, rest) =>
+        -- stdoutFlush: what reached fd 1 is (writeLoopLen answers a).1; a hard answer drops the rest of the batch
+        let hard := answers.any (fun x => !x.soft)
+        replayStdout fuel (if hard then { r with refused := true, refusedAfterOff := r.refusedAfterOff || r.sawOff } else r) rest
+    | _ => replayStdout fuel r evs
+
 
 def expectLine (a : TA) (want : String) (what : String) : TA :=
   match a.tl with
@@ -178,15 +304,16 @@ def hexMasked (p : PRec) : String := hexOfBytes p.bytes
 
 /-- match the observed record lines against the pending ones, skipping optional ones that are absent;
 returns the pending records that are present, or the index of the first observed line that does not fit -/
-def matchOpt : List String → List PRec → Nat → Except (Nat × String × String) (List PRec)
+def matchOpt (prefixOk : Bool) : List String → List PRec → Nat → Except (Nat × String × String) (List PRec)
   | [], ps, i =>
+    if prefixOk then .ok [] else
     match ps.find? (!·.opt) with
     | some p => .error (i, "<missing>", p.e.llineC p.color)
     | none => .ok []
   | o :: _, [], i => .error (i, o, "<missing>")
   | o :: os, p :: ps, i =>
-    if p.e.llineC p.color == o then (matchOpt os ps (i + 1)).map (p :: ·)
-    else if p.opt then matchOpt (o :: os) ps i
+    if p.e.llineC p.color == o then (matchOpt prefixOk os ps (i + 1)).map (p :: ·)
+    else if p.opt then matchOpt prefixOk (o :: os) ps i
     else .error (i, o, p.e.llineC p.color)
 
 /-- concurrent reconfiguration actions of `runc` -/
@@ -237,7 +364,7 @@ def stepOp (a : TA) (line : String) : TA :=
        | _ => true)
     let fd1 := kind != "syslog"
     if !(isSout || isA) || !okCfg || a.sinks.size ≥ 6 || (fd1 && a.sinks.any (·.fd1)) then expectLine a "bad-op" "malformed op" else
-    let a := { a with sinks := a.sinks.push { kind := .stream, fd1 := fd1 }, tags := a.tags ++ ["sink-" ++ kind] }
+    let a := { a with sinks := a.sinks.push { kind := .stream, fd1 := fd1, aout := kind == "aout" }, tags := a.tags ++ ["sink-" ++ kind] }
     expectLine a s!"P sink {a.sinks.size} {kind}" "sink"
   | ["color", k, v] =>
     match sinkOf a k with
@@ -248,6 +375,37 @@ def stepOp (a : TA) (line : String) : TA :=
   | "wfault" :: vs =>
     if vs.isEmpty || vs.length > 64 || !vs.all (fun w => w.length ≤ 6 && w.toNat?.isSome) then expectLine a "bad-op" "malformed op"
     else expectLine { a with tags := a.tags ++ ["wfault"] } "P wfault" "wfault"
+  | "kfault" :: k :: ents =>
+    let entOk (e : String) : Bool :=
+      match e.splitOn "=" with
+      | [l, r] =>
+        let lc := l.toList
+        (match lc with
+         | c :: ds => "wocydWOCYD".toList.contains c && !ds.isEmpty && ds.length ≤ 4 && ds.all Char.isDigit &&
+            (let kind := c.toLower
+             if r.toList.head?.map Char.isDigit == some true then r.length ≤ 7 && r.toList.all Char.isDigit && (r.toNat?.getD 0) ≥ 1 && kind == 'w'
+             else (r == "ZERO" && kind == 'w') || ["EINTR", "EAGAIN", "ENOSPC", "EIO", "EFBIG", "EDQUOT", "EPIPE", "EMFILE", "EACCES", "EEXIST", "EBADF"].contains r)
+         | [] => false)
+      | _ => false
+    match sinkOf a k with
+    | some (_, s) =>
+      if ents.isEmpty || ents.length > 64 || !(s.kind == .file || s.aout) || !ents.all entOk then expectLine a "bad-op" "malformed op"
+      else expectLine { a with tags := a.tags ++ ["kfault"] ++ (if ents.any (fun e => e.startsWith "o" || e.startsWith "O" || e.startsWith "d" || e.startsWith "D") then ["kfault-open"] else []) } "P kfault" "kfault"
+    | none => expectLine a "bad-op" "malformed op"
+  | ["settle", n] =>
+    if n.length ≤ 3 && (n.toNat?.map (fun v => v ≥ 1 && v ≤ 200)).getD false then expectLine a "P settle" "settle" else expectLine a "bad-op" "malformed op"
+  | ["reent"] =>
+    if !a.sinks.isEmpty then expectLine a "bad-op" "malformed op" else
+    -- the model: a thread inside Dispatch whose channel function logs makes no further step under any schedule
+    let sys : RSys Nat Nat := { threads := fun u => if u = 0 then { cur := some [.call 1] } else {}, holder := some 0 }
+    let stuck := (rsysRun (fun _ => [.emit 0]) sys [0, 0, 0, 0]).trace.isEmpty && (rsysRun (fun _ => [.emit 0]) sys [0, 0, 0, 0]).holder == some 0
+    let want := if stuck then "M reent deadlock" else "M reent returned"
+    (match a.tl with
+     | l :: rest =>
+       let a := { a with tl := rest, tags := a.tags ++ ["reentrant-channel"] }
+       if l == want then a else if l.startsWith "M reent" then a.mfail s!"re-entrant channel function: impl=[{l}] model=[{want}]"
+       else a.fail s!"reent: impl=[{l.take 160}] model=[{want}]"
+     | [] => a.fail s!"reent: impl=<missing> model=[{want}]")
   | ["lvl", k, md, lv] =>
     match sinkOf a k, intOfString? lv with
     | some (k, s), some lv =>
@@ -274,27 +432,64 @@ def stepOp (a : TA) (line : String) : TA :=
     match sinkOf a k with
     | none => expectLine a "bad-op" "malformed op"
     | some (k, s) =>
-      let a := { a with sinks := a.sinks.set! (k - 1) { s with enabled := false, dirty := false } }
+      let s := { s with enabled := false, dirty := false }
+      let a := { a with sinks := a.sinks.set! (k - 1) s }
       if s.kind == .mem then expectLine a s!"P off {k}" "off" else
-      -- listing: F <k> <i> <size> <normalised size>, then per line L/W (or X for damage), I <faults injected>, then P off k files=n
-      let (lst, rest) := a.tl.span (fun l => l.startsWith "F " || l.startsWith "L " || l.startsWith "W " || l.startsWith "X " || l.startsWith "I ")
+      -- listing: K <k> <system call> … (recorded calls), F <k> <i> <size> <normalised size>, then per line L/W (or X for damage),
+      -- I <faults injected>, then P off k files=n
+      let (lst, rest) := a.tl.span (fun l => l.startsWith "F " || l.startsWith "L " || l.startsWith "W " || l.startsWith "X " || l.startsWith "I " || l.startsWith "K ")
       let a := { a with tl := rest }
-      match lst.find? (·.startsWith "X ") with
+      let fl := lst.filter (·.startsWith "F ")
+      let sizes := fl.map fun l => ((words l).getD 3 "").toNat?.getD 0
+      -- (0) the recorded system calls: the kernel's answers are the oracle, the calls must be an execution of the model (M-level)
+      let kl := lst.filter (·.startsWith "K ")
+      let evs : List KEv := kl.filterMap fun l => parseKEv s.aout ((words l).drop 2)
+      let hardOf (e : KEv) : Bool := match e with | .mk ok => !ok | .op ok => !ok | .wr _ ans _ => !ans.soft | _ => false
+      let anyRefused := evs.any hardOf
+      let afterOff := (evs.dropWhile (fun e => match e with | .offBegin => false | _ => true))
+      let refusedAfterOff := afterOff.any hardOf
+      let (a, s) : TA × SinkSt :=
+        if evs.length != kl.length then (a.mfail s!"sink {k}: unparsable K line", s) else
+        if s.kind == .file then
+          match replayFile s.fmax (evs.length + 1) { fl := s.fl } (evs.filter fun e => match e with | .offBegin => false | _ => true) with
+          | .error e => (a.mfail s!"sink {k}: the recorded system calls are not an execution of the model's flush(): {e}", s)
+          | .ok r =>
+            let want := r.fl.closed ++ r.fl.cur.toList
+            let a := if want != sizes then a.mfail s!"sink {k}: file sizes {sizes} differ from the model's {want} (replayed from the recorded system calls)" else a
+            (a, { s with fl := r.fl })
+        else if s.aout then
+          match replayStdout (evs.length + 1) { fl := {} } (evs.filter fun e => match e with | .offBegin => false | _ => true) with
+          | .error e => (a.mfail s!"sink {k}: the recorded write() calls on fd 1 are not an execution of the model's flush(): {e}", s)
+          | .ok _ => (a, s)
+        else (a, s)
+      let a := { a with sinks := a.sinks.set! (k - 1) s }
+      let ktags := (if anyRefused then ["kernel-refused"] else []) ++ (if refusedAfterOff then ["refused-at-disable"] else [])
+        ++ (if evs.any (fun e => match e with | .wr _ (.acc _) _ => false | .wr _ .eintr _ => true | _ => false) then ["write-retried"] else [])
+        ++ (if evs.any (fun e => match e with | .op ok => !ok | .mk ok => !ok | _ => false) then ["open-refused"] else [])
+      -- a hard error on fd 1: the rest of that batch is dropped (C09_stdout_faults): nothing to compare record by record
+      if s.aout && anyRefused then
+        expectLine { a with tags := a.tags ++ ktags ++ ["stdout-hard-error"] } s!"P off {k} files={fl.length}" "off" else
+      -- when the kernel was still refusing after disable() began, the cached tail is legitimately not on disk: the files hold a
+      -- prefix of the records' bytes, possibly ending inside a record (C09_file_whole_records_faults: files ++ cache = records)
+      let prefixOk := s.kind == .file && refusedAfterOff
+      let body := lst.filter (fun l => l.startsWith "L " || l.startsWith "X ")
+      let xs := lst.filter (·.startsWith "X ")
+      let tailPartial := prefixOk && xs.length == 1 && (match body.getLast? with | some l => l.startsWith "X " && (words l).getD 3 "" == "partial" | none => false)
+      match (if tailPartial then none else xs.head?) with
       | some x => a.fail s!"sink {k}: damaged / partial / unparsable record in the output (record SPLIT, DUPLICATED in part, or corrupt): [{x.take 200}]"
       | none =>
-        let fl := lst.filter (·.startsWith "F ")
         let ll := lst.filter (·.startsWith "L ")
         let wl := lst.filter (·.startsWith "W ")
         let injected := (lst.filter (·.startsWith "I ")).any (fun l => ((words l).getD 1 "0").toNat?.getD 0 > 0)
-        let sizes := fl.map fun l => ((words l).getD 3 "").toNat?.getD 0
         let adjs := fl.map fun l => ((words l).getD 4 "").toNat?.getD 0
         let n := fl.length
         -- (1) the records, in creation order, are exactly the expected ones (optional ones may be absent)
         let obs := ll.map fun l => " ".intercalate ((words l).drop 3)
-        match matchOpt obs s.pending.toList 0 with
+        match matchOpt prefixOk obs s.pending.toList 0 with
         | .error (i, o, w) =>
           a.fail (s!"sink {k}: record #{i} (in creation order) differs — LOST, DUPLICATED, reordered or damaged: " ++
-                  s!"impl=[{o.take 160}] model=[{w.take 160}]")
+                  s!"impl=[{o.take 160}] model=[{w.take 160}]" ++
+                  (if o == "<missing>" && anyRefused then " (the kernel refused nothing after disable() began: everything logged before must be on disk)" else ""))
         | .ok present =>
         -- (2) byte-exact rendering of the short records
         let wantW := (present.filter (fun p => p.bytes.length ≤ 200)).map hexMasked
@@ -303,20 +498,22 @@ def stepOp (a : TA) (line : String) : TA :=
           let i := ((obsW.zip wantW).takeWhile (fun p => p.1 == p.2)).length
           a.fail s!"sink {k}: rendered bytes of short record #{i} differ: impl=[{obsW.getD i "<missing>"}] model=[{wantW.getD i "<missing>"}]"
         else
-        -- (3) rollover rule: every file but the last reached the limit; no empty file; files only if records
-        if sizes.any (· == 0) then a.fail s!"sink {k}: an empty log file exists" else
+        -- (3) rollover rule: every file but the last reached the limit; no empty file (unless the kernel refused the first write
+        -- into a new file); files only if records
+        if (sizes.dropLast).any (· == 0) || (sizes.any (· == 0) && !anyRefused && !(s.fl.cur == some 0)) then a.fail s!"sink {k}: an empty log file exists" else
         if (sizes.dropLast).any (· < s.fmax) then
           a.fail s!"file sink {k}: a file was rolled over below the limit {s.fmax}: sizes={sizes}" else
-        if present.isEmpty != (n == 0) then a.fail s!"sink {k}: {n} files for {present.length} records" else
+        if !prefixOk && !(sizes.any (· == 0)) && present.isEmpty != (n == 0) then a.fail s!"sink {k}: {n} files for {present.length} records" else
         if s.kind == .stream && n > 1 then a.fail s!"sink {k}: {n} streams" else
         let totalWant := (present.map fun p => p.bytes.length).foldl (· + ·) 0
-        if adjs.foldl (· + ·) 0 != totalWant then
+        if !tailPartial && adjs.foldl (· + ·) 0 != totalWant then
           a.fail s!"sink {k}: total size {adjs.foldl (· + ·) 0} (thread ids normalised) differs from the rendered records' {totalWant}" else
         let tags := (if n ≥ 2 then ["rollover"] else []) ++ (if n ≥ 1 then ["out-nonempty"] else ["out-empty"])
           ++ (if s.kind == .file && n ≥ 1 then ["file-nonempty"] else [])
           ++ (if s.kind == .file && present.any (fun p => p.bytes.length > s.fmax) then ["limit<record"] else [])
           ++ (if present.any (·.color) then ["colored-record"] else [])
-          ++ (if injected then ["wfault-hit"] else [])
+          ++ (if injected then ["wfault-hit"] else []) ++ ktags
+          ++ (if prefixOk && present.length < (s.pending.toList.filter (!·.opt)).length then ["tail-retained"] else [])
         expectLine { a with tags := a.tags ++ tags } s!"P off {k} files={n}" "off"
   | op :: tw :: restw =>
     if op != "run" && op != "runc" && op != "runp" then expectLine a "bad-op" "malformed op" else
@@ -405,7 +602,10 @@ def finish (d : DS) : List String :=
   | some e => tagsLine ++ ["reject " ++ e]
   | none =>
     match a.tl with
-    | [] => tagsLine ++ [s!"ok ops={a.nops} records={a.nrec}"]
+    | [] =>
+      (match a.merr with
+       | some e => tagsLine ++ ["reject M: " ++ e]
+       | none => tagsLine ++ [s!"ok ops={a.nops} records={a.nrec}"])
     | l :: _ => tagsLine ++ ["reject unexpected extra implementation output: [" ++ (l.take 200).toString ++ "]"]
 
 def stepLine (d : DS) (line : String) : DS × List String :=
